@@ -308,44 +308,10 @@ def check(chk, repo, tier):
     # ---- (T) use_top_input discipline ------------------------------------------------------
     gen = Gen(repo)
     elems = gen.elements()
-    n_set = 0
-    for key, knode, _ in table_keys_with_nodes(repo, "elements"):
-        v = elems.get(key)
-        if not (isinstance(v, tuple) and isinstance(v[0], str)
-                and "use_top_input" in v[0]):
-            continue
-        n_set += 1
-        try:
-            tree = ast.parse(v[0])
-        except SyntaxError:
-            continue
-        stmts = tree.body
-        seq = [norm(ast.unparse(s)) for s in stmts]
-        ok = False
-        if "ctx.use_top_input=True" in seq and "ctx.use_top_input=False" in seq:
-            i, j = seq.index("ctx.use_top_input=True"), seq.index(
-                "ctx.use_top_input=False")
-            between = stmts[i + 1:j]
-            reads = sum(1 for b in between for m in ast.walk(b)
-                        if isinstance(m, ast.Call)
-                        and (dotted(m.func) or "") == "get_input")
-
-            def harmless(b):
-                """no call that could read input while the flag is set:
-                only `stack.append(<name or constant>)`"""
-                calls = [m for m in ast.walk(b) if isinstance(m, ast.Call)]
-                return all(
-                    (dotted(m.func) or "") == "get_input"
-                    or ((dotted(m.func) or "") == "stack.append"
-                        and all(isinstance(a, (ast.Name, ast.Constant))
-                                for a in m.args))
-                    for m in calls)
-            ok = i < j and reads == 1 and all(harmless(b) for b in between)
-        chk.ob("C11.explicit-read-template", f"elements[{key!r}]", ok,
-               "the input element must set use_top_input, read once with "
-               "get_input(ctx) and reset the flag before anything else runs",
-               repo.mod("elements").rel, knode.lineno,
-               sample={"template": v[0][:90]})
+    # (the set / read / reset statement pattern of the `?` template used to be
+    # matched here; a correct rewrite of the template - direct indexing with
+    # the flagged call as the fall-back - was reported by it, so the
+    # interpreted transition below decides alone)
     # the explicit read `?` as a transition system of its own: its template
     # (however it is written) is run on the same abstract states with the
     # flag down, as it is between two elements; it must push input number
